@@ -179,7 +179,9 @@ func c13R7(c *kit.Ctx, m *ruModel, e *kit.Func, r7 *kit.Rule) {
 		_, fv, ok := kit.FieldSel(info, x)
 		return ok && fv == m.cf["active"]
 	}
-	bf.OnCond = func(cond ast.Expr, s kit.S) kit.S {
+	var checkLeaves func(cond ast.Expr, s kit.S) kit.S
+	bf.OnCond = func(cond ast.Expr, s kit.S) kit.S { return checkLeaves(cond, s) }
+	checkLeaves = func(cond ast.Expr, s kit.S) kit.S {
 		for _, l := range ruLeaves(cond) {
 			a, b, _, ok := ruEqLeaf(l)
 			if !ok {
@@ -213,6 +215,21 @@ func c13R7(c *kit.Ctx, m *ruModel, e *kit.Func, r7 *kit.Rule) {
 		return s
 	}
 	st.OnNode = func(n ast.Node, s kit.S) []kit.S {
+		// a comparison held in a local: `changed := active != c.Active`
+		{
+			var rhs []ast.Expr
+			switch x := n.(type) {
+			case *ast.AssignStmt:
+				rhs = x.Rhs
+			case *ast.ValueSpec:
+				rhs = x.Values
+			}
+			for _, rx := range rhs {
+				if kit.IsBoolType(info.TypeOf(rx)) {
+					s = checkLeaves(rx, s)
+				}
+			}
+		}
 		as, ok := n.(*ast.AssignStmt)
 		if !ok {
 			return []kit.S{s}
